@@ -29,6 +29,11 @@ def injection(name, n, m, kind, epoch=None, dist=None):
         s = DistributedSampler(_Sized(m), num_replicas=dist["W"], rank=dist["rank"], shuffle=True, seed=dist["seed"])
         s.set_epoch(epoch or 0)
         return [int(i) for i in s]
+    if kind == "real_seq":
+        return list(range(m))  # torch SequentialSampler over the whole dataset
+    if kind == "dist_seq":
+        from kappadata.samplers import DistributedSampler
+        return [int(i) for i in DistributedSampler(_Sized(m), num_replicas=dist["W"], rank=dist["rank"], shuffle=False)]
     pool = list(range(m))
     if kind == "fixedperm":
         random.Random(f"inj/{name}").shuffle(pool)
@@ -63,6 +68,20 @@ def make_sampler(name, n, m, kind, log, source_attr="data_source", dataset=None,
                 yield from super().__iter__()
 
         return D(dataset if dataset is not None else _Sized(m), num_replicas=dist["W"], rank=dist["rank"], shuffle=True, seed=dist["seed"])
+
+    if kind in ("real_seq", "dist_seq"):
+        # real library samplers as side samplers (what the repository's own tests use), instrumented by subclassing
+        from torch.utils.data import SequentialSampler
+        from kappadata.samplers import DistributedSampler
+        base_cls = SequentialSampler if kind == "real_seq" else DistributedSampler
+
+        class R(base_cls):
+            def __iter__(self):
+                log.append(["iter", name])
+                yield from super().__iter__()
+
+        data = dataset if dataset is not None else _Sized(m)
+        return R(data) if kind == "real_seq" else R(data, num_replicas=dist["W"], rank=dist["rank"], shuffle=False)
 
     class Base:
         def __len__(self):
@@ -130,6 +149,14 @@ def gen_world(rng, max_n=40, allow_multi_kind=True, max_cfg=4, loader=False):
         n = rng.choice([0, 1, 2, rng.randint(0, 9)])
         c = dict(n=n, m=n + rng.choice([0, 0, 1, 3]), ene=None, enu=None, ens=None,
                  bs=rng.choice([None, None, 1, 2, 3, 5]), kind=rng.choice(["seq", "fixedperm"]))
+        r = rng.random()
+        if r < 0.12:
+            c.update(kind="real_seq", m=n)
+        elif r < 0.24 and n > 0:
+            W = rng.choice([2, 3])
+            c.update(kind="dist_seq", dist=dict(W=W, rank=rng.randrange(W)), m=n * W - rng.randrange(W))
+            if c["m"] < 1:
+                c["m"] = n * W
         nk = rng.choice([1, 1, 1, 2, 3]) if allow_multi_kind else 1
         for k in rng.sample(["ene", "enu", "ens"], nk):
             if k == "ene":
@@ -174,6 +201,10 @@ def valid_world(w):
     for c in w["configs"]:
         if c["m"] < c["n"] or c["n"] < 0:
             return False
+        if c["kind"] == "real_seq" and c["m"] != c["n"]:
+            return False
+        if c["kind"] == "dist_seq" and (not c.get("dist") or -(-c["m"] // c["dist"]["W"]) != c["n"] or c["dist"]["rank"] >= c["dist"]["W"]):
+            return False
         if all(c[k] is None for k in ("ene", "enu", "ens")):
             return False
         if any(c[k] is not None and c[k] < 1 for k in ("ene", "enu", "ens", "bs")):
@@ -204,7 +235,7 @@ def reference(w, start_epoch=0, max_events=200000):
         c = w["configs"][ci]
         bs = c["bs"] or B
         ev.append(["iter", f"c{ci}"])
-        stream = injection(f"c{ci}", c["n"], c["m"], c["kind"])
+        stream = injection(f"c{ci}", c["n"], c["m"], c["kind"], dist=c.get("dist"))
         for j, i in enumerate(stream):
             ev.append(["out", offs[ci] + i, (j + 1) % bs == 0 or j + 1 == c["n"]])
 
@@ -261,7 +292,7 @@ def build(w, log, start=None, datasets=None, collators=None):
     main = make_sampler("main", w["N"], w["M"], w["main_kind"], log, attr, dataset=datasets[0] if datasets else None, dist=w.get("dist"))
     cfgs = []
     for ci, c in enumerate(w["configs"]):
-        s = make_sampler(f"c{ci}", c["n"], c["m"], c["kind"], log, attr, dataset=datasets[ci + 1] if datasets else None)
+        s = make_sampler(f"c{ci}", c["n"], c["m"], c["kind"], log, attr, dataset=datasets[ci + 1] if datasets else None, dist=c.get("dist"))
         cfgs.append(InterleavedSamplerConfig(sampler=s, every_n_epochs=c["ene"], every_n_updates=c["enu"],
                                              every_n_samples=c["ens"], batch_size=c["bs"],
                                              collator=collators[ci + 1] if collators else None))
@@ -344,9 +375,9 @@ def world_candidates(plan):
     if w["dlbs"] is not None:
         yield core._set(plan, ["world", "dlbs"], None)
     for ci, c in enumerate(w["configs"]):
-        if c["kind"] != "seq":
+        if c["kind"] not in ("seq", "dist_seq", "real_seq"):
             yield core._set(plan, ["world", "configs", ci, "kind"], "seq")
-        if c["m"] != c["n"]:
+        if c["m"] != c["n"] and c["kind"] != "dist_seq":
             yield core._set(plan, ["world", "configs", ci, "m"], c["n"])
         if c["bs"] is not None:
             yield core._set(plan, ["world", "configs", ci, "bs"], None)
